@@ -1,5 +1,6 @@
 import ScionVerif.Lemmas.SnapTun
 import ScionVerif.Lemmas.SnapTunConc
+import ScionVerif.Lemmas.SnapTunEntry
 /-!
 # C09 — the SNAP tunnel carries traffic only for identities authorised at that moment
 
@@ -297,6 +298,137 @@ theorem attribution_driver_model (ops : List (Op GoWg.Pkt)) (frm : Addr) (pkt : 
       (run GoWg.wg {} ops).reg.isAuthorized (run GoWg.wg {} ops).now id = some sd := by
   obtain ⟨id, h1, h2, h3, _⟩ := attribution GoWg.wg GoWg.sound ops frm pkt net pl sd peer h
   exact ⟨id, h1, h2, h3⟩
+
+/-! ## every public entry point of `SnapTunServer`
+
+`impl SnapTunServer` offers each packet-moving operation twice: `handle_incoming_packet_with_session` /
+`handle_outgoing_packet_with_session` (the theorems above) and the compatibility wrappers `handle_incoming_packet` /
+`handle_outgoing_packet` (`Model/TunServerEntry.lean`: `handleIncomingPlain`, `handleOutgoingPlain`, `stepVia`).
+The property speaks about payloads, not about one Rust function: the statements below extend "only if authorised at
+that instant" and "nothing flows after a lapse" to histories in which every operation goes through either entry
+point, and `entry_points_pinned` stops checking when `impl SnapTunServer` gets a public function that the model does
+not mirror (and the harness does not drive), or when a wrapper stops being the delegation that is modelled. -/
+
+/-- Tie to the source: the `pub fn`s of all `impl .. SnapTunServer<..>` blocks (regenerated from server.rs on every
+run) are exactly the entry points the model has a function for; the two compatibility wrappers are
+`_with_session` followed by the projection `into_result` / `into_packet`. -/
+theorem entry_points_pinned :
+    SERVER_PUB_FNS = entryPoints.map (·.1) ∧ PLAIN_INCOMING_DELEGATES = true ∧ PLAIN_OUTGOING_DELEGATES = true := by
+  decide
+
+section
+variable {σ Pkt Net : Type}
+
+/-- The choice of the entry point does not change what happens to the system state … -/
+theorem entry_same_state (w : Wg σ Pkt Net) (s : Sys σ) (v : Via) (op : Op Pkt) :
+    (stepVia w s v op).1 = (step w s op).1 := by
+  cases v <;> cases op <;> rfl
+
+/-- … so a history with arbitrary entry points reaches the state of the history of the same operations through the
+`_with_session` functions: every theorem above about `run w {} ops` speaks about mixed histories too. -/
+theorem entry_same_run (w : Wg σ Pkt Net) (s : Sys σ) (ops : List (Via × Op Pkt)) :
+    runVia w s ops = run w s (ops.map (·.2)) := by
+  induction ops generalizing s with
+  | nil => rfl
+  | cons o ops ih =>
+    show runVia w (stepVia w s o.1 o.2).1 ops = run w (step w s o.2).1 (ops.map (·.2))
+    rw [entry_same_state]; exact ih _
+
+/-- whatever the caller of *any* entry point gets through is a flow of the `_with_session` function underneath -/
+theorem entry_flows {w : Wg σ Pkt Net} {s : Sys σ} {v : Via} {op : Op Pkt}
+    (h : (stepVia w s v op).2.flows = true) : ∃ peer, (step w s op).2.flow = some peer := by
+  have hs : ∀ o : Out Net, (VOut.session o).flows = true → ∃ peer, o.flow = some peer := by
+    intro o ho
+    simp only [VOut.flows] at ho
+    cases hf : o.flow with
+    | none => simp [hf] at ho
+    | some p => exact ⟨p, rfl⟩
+  cases v with
+  | session => cases op <;> exact hs _ h
+  | plain =>
+    cases op with
+    | incoming frm pkt =>
+      simp only [stepVia, handleIncomingPlain] at h
+      simp only [step]
+      cases hr : (handleIncoming w (s.reg.isAuthorized s.now) s.srv pkt frm).res with
+      | forwarded pl sd => exact ⟨_, rfl⟩
+      | result r =>
+        rw [hr] at h
+        -- `Result { result }` never carries `WriteToTunnel` (incoming_packet_result turns it into `Forwarded`)
+        exfalso
+        cases r with
+        | writeToTunnel pl =>
+          have := handleIncoming_result_not_wtt (w := w) (authz := s.reg.isAuthorized s.now) (s := s.srv)
+            (pkt := pkt) (frm := frm) pl
+          exact this hr
+        | done => simp [InRes.intoResult, VOut.flows] at h
+        | err e => simp [InRes.intoResult, VOut.flows] at h
+        | writeToNetwork n => simp [InRes.intoResult, VOut.flows] at h
+    | outgoing to pl =>
+      simp only [stepVia, handleOutgoingPlain] at h
+      simp only [step]
+      cases hr : (handleOutgoing w (s.reg.isAuthorized s.now) s.srv pl to).res with
+      | none => rw [hr] at h; simp [VOut.flows] at h
+      | some x => exact ⟨_, rfl⟩
+    | register k i l => exact hs _ h
+    | advance d => exact hs _ h
+    | purge => exact hs _ h
+    | tick => exact hs _ h
+
+/-- **Every entry point is gated.**  For every state and every operation through either public function: if the
+caller gets a decrypted payload (`Forwarded`, or `TunnResult::WriteToTunnel` from `handle_incoming_packet`), or an
+outbound payload is accepted (`Some` from `handle_outgoing_packet_with_session`), or `handle_outgoing_packet` returns
+a packet to send to the client, then the identity `id` whose authorisation was consulted – the peer static identity
+of the tunnel at that address (`attribution`, `attribution_outgoing`) – has a registration record whose expiry is
+strictly after the current instant. -/
+theorem every_entry_only_if_authorized (w : Wg σ Pkt Net) (s : Sys σ) (v : Via) (op : Op Pkt)
+    (h : (stepVia w s v op).2.flows = true) :
+    ∃ id e, (step w s op).2.flow = some (some id) ∧ s.reg.sess.get? id = some e ∧ s.now < e := by
+  obtain ⟨peer, hp⟩ := entry_flows h
+  obtain ⟨id, e, hid, he, hl⟩ := forward_only_if_authorized w s op peer hp
+  exact ⟨id, e, by rw [hp, hid], he, hl⟩
+
+/-- **Lapse blocks every entry point.**  From any state in which `id` is not authorised, along every continuation –
+each operation through either entry point – that does not register `id` again: whatever gets through, through
+whichever public function, gets through for the tunnel of another identity. -/
+theorem lapse_blocks_every_entry (w : Wg σ Pkt Net) (s : Sys σ) (id : Id)
+    (h : s.reg.isAuthorized s.now id = none)
+    (ops : List (Via × Op Pkt)) (hno : ∀ o ∈ ops, ∀ k l, o.2 ≠ .register k id l)
+    (pre : List (Via × Op Pkt)) (v : Via) (op : Op Pkt) (post : List (Via × Op Pkt))
+    (hsplit : ops = pre ++ (v, op) :: post)
+    (hf : (stepVia w (runVia w s pre) v op).2.flows = true) :
+    ∃ id', id' ≠ id ∧ (step w (runVia w s pre) op).2.flow = some (some id') := by
+  obtain ⟨id', e, hfl, _, _⟩ := every_entry_only_if_authorized w _ v op hf
+  refine ⟨id', ?_, hfl⟩
+  rintro rfl
+  rw [entry_same_run] at hfl
+  refine lapse_blocks w s id' h (ops.map (·.2)) ?_ (pre.map (·.2)) op (post.map (·.2)) ?_ hfl
+  · intro op' hm k l
+    obtain ⟨o, ho, rfl⟩ := List.mem_map.mp hm
+    exact hno o ho k l
+  · rw [hsplit]; simp
+
+end
+
+-- non-vacuity (toy WireGuard of `Example` below is defined later; the executable stand-in is available here):
+-- identity 0 registered for 2 ticks, genuine handshake + first data from address 0, then the registration lapses
+namespace EntryExample
+def hist : List (Via × Op GoWg.Pkt) :=
+  [(.session, .register 0 0 2), (.plain, .incoming 0 (.init (some 0) 0 1 1)),
+   (.plain, .incoming 0 (.data (some 0) 1 0 1 0 [7]))]
+-- while authorised, both wrappers let traffic through …
+example : (stepVia GoWg.wg (runVia GoWg.wg {} (hist.take 2)) .plain (.incoming 0 (.data (some 0) 1 0 1 0 [7]))).2
+    = .incomingPlain [] (.writeToTunnel [7]) := by decide
+example : (stepVia GoWg.wg (runVia GoWg.wg {} hist) .plain (.outgoing 0 [9])).2.flows = true := by decide
+-- … after the lapse neither does, although the WireGuard session is still there
+example : (stepVia GoWg.wg (runVia GoWg.wg {} (hist ++ [(.session, .advance 2)])) .plain (.outgoing 0 [9])).2
+    = .outgoingPlain none := by decide
+example : (stepVia GoWg.wg (runVia GoWg.wg {} (hist ++ [(.session, .advance 2)])) .plain
+    (.incoming 0 (.data (some 0) 1 0 1 1 [8]))).2 = .incomingPlain [] (.err .unexpectedPacket) := by decide
+-- accepted but only queued (no session yet): `_with_session` says `Some`, the wrapper has nothing to send
+example : (stepVia GoWg.wg (runVia GoWg.wg {} (hist.take 2)) .plain (.outgoing 0 [9])).2 = .outgoingPlain (some .init) := by
+  decide
+end EntryExample
 
 /-! ## "schedules": concurrent `register` / `remove_expired` calls are equivalent to a sequential history
 
